@@ -94,7 +94,7 @@ pub fn cosine_range_dim1() {
     vk_check!(ok, "CRc: cosine_distance_checked in [0,2]");
 }
 // cosine_distance(a,a) == 0 (dim 1, every finite a): CBMC gives no result in 40 min after the f64 change — not decided.
-//@harness cosine_range_dim2 :: carries :: bounded(dim 2) :: timeout=900 :: cosine_distance in [0,2] for every finite input
+//@harness cosine_range_dim2 :: carries :: bounded(dim 2) :: tier=thorough :: timeout=1800 :: cosine_distance in [0,2] for every finite input
 #[cfg_attr(kani, kani::proof)] #[cfg_attr(kani, kani::unwind(4))]
 pub fn cosine_range_dim2() {
     let a = [fin(), fin()]; let b = [fin(), fin()];
